@@ -851,6 +851,21 @@ func init() {
 					})
 					complete = complete && done
 				}
+				if pn == "locator" {
+					// assembled locators X@M with well-formed and malformed halves on either side
+					xs := []string{"", "gene", "CDS/gene=[", "/product=*", "/=(", "gene/a=\\", "/a=x", "1", "2..5", "complement(2..5)", "complement(2..", "5..2", "0", "^", "$", "^..$", "1^2", "join(1..2,4..5)", "gene/", "@", "gene@"}
+					ms := []string{"^", "$", "^..$", "^+1..$-1", "^-2", "$+2", "^..", "..$", "^^", "$..^", "1", "x", "", "^+", "@^"}
+					for _, x := range xs {
+						for _, m := range ms {
+							c := c07Case{Kind: "string", Parser: pn, Input: x + "@" + m}
+							r.Evals.Add(1)
+							r.Journal(c)
+							if ok, sig, detail := c07Eval(c); !ok {
+								r.Fail(engine.Failure{Sig: sig, Case: c, Detail: detail, Size: 700000 + len(c.Input)})
+							}
+						}
+					}
+				}
 				// every byte string of length <= 2
 				for a := 0; a < 256; a++ {
 					c := c07Case{Kind: "string", Parser: pn, InputB: []byte{byte(a)}}
